@@ -163,4 +163,17 @@ var checks = map[string]check{
 		Rule:   "a valid generated program (1-4 files) x exactly one rule-breaking edit from the property's catalogue at a drawn position (main or transitively included file; struct/union/exception/args/throws/typedef/const/enum/service; local, qualified or unknown-prefix reference; include cycle of length 1-4) x go/fastgo x -r on/off, and invalid command lines; oracle on the binary: exit status != 0, a diagnostic, empty output directory, no Go panic/fatal trace, no hang; the unedited program must exit 0 with its expected files; non-trivial = the edit sits in an included file or a nested position (args, throws, container or literal element), or the shortest include cycle is >=2, distinct by files + arguments",
 		Assume: []string{"duplicate ids or names inside args/throws lists are not enforced by thriftgo and are not in the catalogue as generated", "backend-enforced edits (string for integer, unknown field / non-string key in a struct literal) in an included file are run with -r (without it an unused include is never evaluated)", "a valid program that is rejected is counted and skipped (C01's domain)"},
 	},
+	"C13": {
+		ID: "C13", Pkg: "c13", NeedBin: true, MaxPar: 8,
+		Jobs: []job{
+			{Run: "^TestMask$", Quick: 3, QShards: 8, Thor: 50, TShards: 14},
+			{Run: "^TestAnchor$", Quick: 1, QShards: 1, Thor: 1, TShards: 1},
+		},
+		Rule: "one rapid case = one program generated with go:with_field_mask,with_reflection plus one of {nothing, field_mask_halfway, field_mask_zero_required}, built into a driver, then 40-100 (root struct, value, path set, white/black) pairs; paths are drawn along the value (fields by name/id, indices in and out of range, present/absent int and string keys, *, depth <= 4, multi-key steps, conflict-free or (1/8) conflicting), plus nil-mask, empty-mask and mask-attached-to-child (halfway) modes; non-trivial = strict non-empty subset of a container of size >= 3 including its last element, or mask depth >= 3",
+		Assume: []string{
+			"exact equality only on conflict-free sets and, in black-list mode, without a path ending in '*'; other sets get well-formedness + sub-value + no error/panic",
+			"read-under-mask: unselected parts equal a freshly constructed object (baseline taken from the driver's `new`; constructors are C06's business)",
+			"conflicting sets are used only where no listed finding can apply",
+		},
+	},
 }
